@@ -68,7 +68,10 @@ func convMessage(r *rand.Rand, t *term) (int, []byte) {
 		return 0x0102, code
 	case 9:
 		return 0x0800, randBytes(r, 8)
-	case 10:
+	case 10: // (a body shorter than the 36 fixed bytes does not parse: logged, answered with what the handler holds - see Replies)
+		if !burstMode && r.Intn(6) == 0 {
+			return 0x0801, randBytes(r, r.Intn(36))
+		}
 		return 0x0801, randBytes(r, 36+r.Intn(100))
 	case 11: // (with no query outstanding it is ordinary traffic; the attribute block is 10 bytes, other lengths do not parse)
 		return 0x1003, randBytes(r, []int{10, 10, 10, 0, 9, 11, 24}[r.Intn(7)])
@@ -81,6 +84,9 @@ func convMessage(r *rand.Rand, t *term) (int, []byte) {
 		b := append([]byte{byte(len(name))}, name...)
 		b = append(b, byte(r.Intn(5)))
 		b = binary.BigEndian.AppendUint32(b, r.Uint32())
+		if !burstMode && r.Intn(6) == 0 { // a name length that does not fit the body
+			b[0] = byte(int(b[0]) + 1 + r.Intn(5))
+		}
 		return []int{0x1211, 0x1212}[r.Intn(2)], b
 	case 16: // responses: no reply
 		return []int{0x0001, 0x0104, 0x0805, 0x1205, 0x1206}[r.Intn(5)], randBytes(r, 3+r.Intn(8))
@@ -438,7 +444,7 @@ func slowWriterBurst(l *live, k int) {
 	time.Sleep(10 * time.Millisecond)
 	var burst []byte
 	expect := int64(2)
-	for i := 0; i < 36; i++ {
+	for i := 0; i < 64; i++ { // (about 2 KB: the first write fills the reader's 1023-byte buffer exactly)
 		switch {
 		case i >= 10 && i < 22: // a transfer of 12 small parts
 			b := []byte{byte(i), byte(i + 1), byte(i + 2)}
@@ -457,8 +463,11 @@ func slowWriterBurst(l *live, k int) {
 			expect++
 		}
 	}
-	for len(burst) > 0 { // (a read takes at most 1023 bytes: a few large reads)
-		n := min(len(burst), 1000)
+	for first := true; len(burst) > 0; first = false { // a write of exactly the reader's buffer size (1023 bytes), then everything else at once
+		n := len(burst)
+		if first {
+			n = min(n, 1023)
+		}
 		t.send(burst[:n])
 		burst = burst[n:]
 	}
